@@ -289,6 +289,9 @@ def check_stab_target(ctx, res, drv, SC, pending, given=None):
         else:
             res.violation(f"solve:stab-target:raises:{err_class(e)}", f"TimeReversedSolver raised {err_class(e)} on a stabilizer target without product qubit: {str(e)[:120]}", input=inp)
         return
+    if prod:
+        # not a violation (the circuit is validated like any other), but it would refute the conjectured characterisation "returns iff no product qubit"
+        res.count("branches", "stab-target:product-qubit:returned")
     if abs(float(score)) > 1e-9:
         res.violation("solve:score-not-zero", f"reported score {score} is not 0 (stabilizer target)", input=inp)
     try:
@@ -746,6 +749,14 @@ def search(ctx, res, proof_broken):
     n_try = 0
     # first the sparse block-structured targets chosen with the model's branch tags (the sign-sensitive branches of the two solver helpers)
     guided_targets(ctx, res, drv, SC, DC, pending, 4000 if ctx.quick else 20000)
+    # then stabilizer targets that are not graph states (absorption branches with photon Pauli Y / Z)
+    for _ in range(600 if ctx.quick else 3000):
+        if res.violations:
+            break
+        check_stab_target(ctx, res, drv, SC, pending)
+        if len(pending) > 40:
+            flush(res, drv, pending)
+    flush(res, drv, pending)
     while time.time() - t0 < (240 if ctx.quick else 1200) and not res.violations:
         n = ctx.rng.randrange(6, 10)
         g = nx.gnp_random_graph(n, ctx.rng.uniform(0.35, 0.8), seed=ctx.rng.getrandbits(30))
